@@ -52,6 +52,16 @@ fn main() { spawn w(1); spawn w(2); spawn w(3); loop { let y = 2; } }`, VMOnly: 
 fn main() { spawn w(1); spawn w(2); let i = 0; while i < 400 { i += 1; } println("main"); }`, VMOnly: true, Cores: 3},
 	{Name: "spawn-6-printing", Text: `fn w(n: int) { let i = 0; loop { i += 1; if i % 50 == 0 { println("w", n, i); } } }
 fn main() { spawn w(1); spawn w(2); spawn w(3); spawn w(4); spawn w(5); spawn w(6); loop { let y = 2; } }`, VMOnly: true, Cores: 7, Endless: true},
+	// endless chains of short-lived cores: every core ends after a handful of instructions, the program as
+	// a whole never does; only cancellation stops it
+	{Name: "spawn-relay", Text: `fn relay(n: int) { spawn relay(n + 1); }
+fn main() { spawn relay(0); }`, VMOnly: true, Cores: 2, Endless: true},
+	{Name: "spawn-relay-main-loops", Text: `fn relay(n: int) { spawn relay(n + 1); }
+fn main() { spawn relay(0); loop { let y = 2; } }`, VMOnly: true, Cores: 3, Endless: true},
+	{Name: "spawn-relay-two-chains", Text: `fn relay(n: int, tag: str) { let m = n + 1; spawn relay(m, tag); }
+fn main() { spawn relay(0, "a"); spawn relay(0, "b"); }`, VMOnly: true, Cores: 3, Endless: true},
+	{Name: "spawn-relay-printing", Text: `fn relay(n: int) { if n % 40 == 0 { println("r", n); } spawn relay(n + 1); }
+fn main() { spawn relay(1); }`, VMOnly: true, Cores: 2, Endless: true},
 	{Name: "spawn-sleepers", Text: `fn w(n: int) { time.sleep(0.05); println("w", n); }
 fn main() { spawn w(1); spawn w(2); time.sleep(0.05); println("main"); }`, VMOnly: true, Cores: 3},
 }
